@@ -350,7 +350,36 @@ class Runner:
         names = {type(c0).__name__, type(getattr(c0, 'archive', None)).__name__, type(getattr(c0, '__swap__', None)).__name__}
         self.clone_persistent = bool(names & {'file_archive', 'dir_archive', 'sqltable_archive', 'sql_archive'})
         self.f, self.c = g, g.__cache__()
+        # a second copy taken at the same moment is kept aside, untouched, for the twin run at the end of the trace
+        self.twin = None
+        if not self.clone_persistent:
+            try: self.twin = dill.loads(dill.dumps(f))
+            except Exception: self.twin = None
         return res
+
+    def twin_run(self):
+        """C20 'as the original would have': the untouched original and an untouched copy taken at the same moment are
+        driven through the same calls from the same state of the global random stream; results, contents, statistics
+        and evictions must coincide"""
+        if self.orig is None or getattr(self, 'twin', None) is None: return None
+        n = self.cfg['nkeys'] + 4
+        seq = [(i * 7 + 3) % n for i in range(3 * (self.cfg['maxsize'] if self.cfg['maxsize'] < 12 else 12) + 12)]
+        st0 = random.getstate()
+        random.seed(sub_seed('twin', len(self.log)))      # a state of the global stream that is NOT the one at pickling time
+        st = random.getstate()
+        def drive(h):
+            random.setstate(st)
+            outs = []
+            for x in seq:
+                try: outs.append(repr(h(self.A(x))))
+                except Exception as e: outs.append(type(e).__name__)
+            snap = self.snapshot(h)
+            return outs, snap['mem'], snap['arch'], snap['stats']
+        try:
+            a, b = drive(self.twin), drive(self.orig)
+        finally:
+            random.setstate(st0)
+        return dict(ok=a == b, copy=repr(a)[:300], orig=repr(b)[:300], ncalls=len(seq))
 
     def independence(self):
         """after the copy has been used: the original's in-memory state is as it was at pickling time
@@ -495,6 +524,9 @@ def run_trace(cfg, ops):
             recs.append(dict(i=i, op=op, line=line, out=out, before=before, after=after))
             if line is not None: lines.append(line)
             before = after
+        tw = R.twin_run() if cfg.get('clone') else None
+        if tw is not None:
+            recs.append(dict(i=len(ops), op=['twin'], line=None, out=dict(twin=tw), before=before, after=before))
         return dict(cfg=cfg, ops=ops, lines=lines, recs=recs, err=None,
                     keys=[repr(k)[:60] for k in R.K.vals], vals=[repr(v)[:40] for v in R.V.vals])
     except Exception as e:
